@@ -1,11 +1,15 @@
 #!/bin/sh
 # vf/retest_seeds.sh [names...] — every seeded change against the current checks; harvest corpus
-cd /verif
+# (framework = the directory this script lives in; library = $QEXPY_REPO, default /repo)
+V=$(cd "$(dirname "$0")/.." && pwd)
+R=${QEXPY_REPO:-/repo}
+export QEXPY_REPO=$R
+cd "$V" || exit 2
 names="$@"; [ -z "$names" ] && names=$(ls seeded)
 for name in $names; do
-  d=/verif/seeded/$name
+  d=$V/seeded/$name
   pid=$(/venv/bin/python -c "import json;print(json.load(open('$d/meta.json'))['property'])")
-  git -C /repo apply $d/patch.diff || { echo "$name PATCH-DOES-NOT-APPLY"; continue; }
+  git -C "$R" apply $d/patch.diff || { echo "$name PATCH-DOES-NOT-APPLY"; continue; }
   out=$(./check $pid 2>/dev/null | grep -E "VIOLATION|tier=")
   line=$(echo "$out" | grep VIOLATION | head -1)
   rp=$(echo "$line" | sed -n 's/.*replay=\([^ ]*\).*/\1/p')
@@ -14,12 +18,12 @@ for name in $names; do
   kept=-
   if [ -n "$rp" ] && [ -f "$rp" ]; then
     ./check $pid --replay $rp >/dev/null 2>&1; r1=$?
-    git -C /repo checkout -- .
+    git -C "$R" checkout -- .
     ./check $pid --replay $rp >/dev/null 2>&1; r0=$?
     if [ $r1 = 1 ] && [ $r0 = 0 ]; then mkdir -p corpus/$pid; cp $rp corpus/$pid/$name.json; kept=yes; else kept="no(r1=$r1,r0=$r0)"; fi
   else
-    git -C /repo checkout -- .
+    git -C "$R" checkout -- .
   fi
   echo "$name $pid $kind corpus=$kept"
 done
-test -z "$(git -C /repo status --short)" && echo "repo clean"
+test -z "$(git -C "$R" status --short)" && echo "repo clean"
